@@ -166,6 +166,8 @@ def install_machine(it: Interp, trace: Optional[Trace] = None, area="symbolic", 
             a, b = c.args
             if is_num(a) and is_num(b) and (to_rf(a).is_const() != to_rf(b).is_const()):
                 return False  # a generic real is not the particular constant it is compared with
+            if is_num(a) and is_num(b) and not to_rf(a).is_const() and not to_rf(b).is_const() and not to_rf(a).equals(to_rf(b)):
+                return False  # two different generic reals
         return None
 
     it.auto_decide = generic
